@@ -373,3 +373,26 @@ Definition m_val_ok (m : mty) (v : mval) : Prop :=
 Definition u_val_ok (ms : list mty) (v : uval) : Prop :=
   exists m, nth_error ms (fst v) = Some m /\ m_val_ok m (snd v).
 Definition ms_wf (ms : list mty) : Prop := forall e, In (MEnum e) ms -> enum_wf e.
+
+(* ====================================================================================== *)
+(* inet:ipv4-prefix: the host bits (src/plugins_types/ipv4_prefix.c ipv4prefix_zero_host)  *)
+(* ====================================================================================== *)
+
+(* mask = 0; for (i = 0; i < 32; ++i) { mask <<= 1; if (prefix > i) mask |= 1; }   on uint32_t *)
+Fixpoint ip4_mask_f (n : nat) (i prefix mask : N) : N :=
+  match n with
+  | O => mask
+  | S n' =>
+      let m := (2 * mask) mod 4294967296 in
+      ip4_mask_f n' (i + 1) prefix (if i <? prefix then m + 1 else m)
+  end.
+Definition ip4_mask (prefix : N) : N := ip4_mask_f 32 0 prefix 0.
+
+(* addr->s_addr &= htonl(mask): on the address as a number in host order *)
+Definition ip4_zero_host (addr prefix : N) : N := N.land addr (ip4_mask prefix).
+
+(* the stored value (struct lyd_value_ipv4_prefix: addr, prefix) of the text a.b.c.d/len; parsing and printing the dotted
+   quad (inet_pton / inet_ntop) are not modelled *)
+Definition ip4p_store (addr prefix : N) : N * N := (ip4_zero_host addr prefix, prefix).
+(* lyplg_type_compare_ipv4_prefix: memcmp of the two structures == 0 *)
+Definition ip4p_compare (a b : N * N) : bool := (fst a =? fst b) && (snd a =? snd b).
